@@ -268,43 +268,38 @@ fn run_c15(idx: usize, rounds: usize) {
     let mut by_errs: Vec<usize> = (0..SUBJECTS.len()).collect();
     by_errs.sort_by_key(|i| std::cmp::Reverse(SUBJECTS[*i].1.split('+').count()));
     let bad_text = SUBJECTS[by_errs[idx % 4]].2;
-    let reference = plugin_validate(good);
+    // cold start: the overlapping calls are the FIRST use of the library in this process (first-touch
+    // initialisation happens under overlap); the un-overlapped reference is taken afterwards
     let mut bad: Vec<String> = vec![];
-    match &reference {
-        Ok((true, e)) if e.is_empty() => {}
-        other => {
-            println!("MICRO-SKIP subject={idx} mt={mt} the recorded valid message is not valid on this tree without any overlap: {other:?}");
-            return;
-        }
-    }
-    let parse_reference = plugin_parse(good);
     let mut hs = vec![];
     {
         // a caller parsing the valid message while the others validate (O3 under overlap)
-        let (g, pr) = (good.to_string(), parse_reference.clone());
+        let g = good.to_string();
         hs.push(std::thread::spawn(move || {
             let mut bad = vec![];
+            let mut first: Option<Result<String, String>> = None;
             for r in 0..rounds.div_ceil(3) {
                 let got = plugin_parse(&g);
-                if got != pr {
-                    bad.push(format!("O3 parse_mt #{r} on a valid published message overlapping other calls returned something else than without overlap ({} vs {} bytes)", got.as_ref().map(|s| s.len()).unwrap_or(0), pr.as_ref().map(|s| s.len()).unwrap_or(0)));
+                match &first {
+                    None => first = Some(got),
+                    Some(pr) if got != *pr => bad.push(format!("O3 parse_mt #{r} on a valid published message overlapping other calls returned something else than its first call ({} vs {} bytes)", got.as_ref().map(|s| s.len()).unwrap_or(0), pr.as_ref().map(|s| s.len()).unwrap_or(0))),
+                    _ => {}
                 }
             }
-            bad
+            (bad, first)
         }));
     }
     for who in 0..2 {
         let g = good.to_string();
         hs.push(std::thread::spawn(move || {
-            let mut bad = vec![];
+            let mut seen = vec![];
             for r in 0..rounds {
-                match plugin_validate(&g) {
-                    Ok((true, e)) if e.is_empty() => {}
-                    Ok((v, e)) => bad.push(format!("O2 validate_mt #{r} (caller {who}) on a valid published message overlapping other validations returned valid={v} errors={:?}", e.iter().take(2).collect::<Vec<_>>())),
-                    Err(e) => bad.push(format!("O1 validate_mt #{r} (caller {who}) failed: {e}")),
-                }
+                seen.push(format!("validate_mt #{r} (caller {who})\u{1}{}", match plugin_validate(&g) {
+                    Ok((v, e)) => format!("valid={v} errors={:?}", e.iter().take(2).collect::<Vec<_>>()),
+                    Err(e) => format!("failed: {e}"),
+                }));
             }
-            bad
+            (seen, None)
         }));
     }
     {
@@ -313,17 +308,128 @@ fn run_c15(idx: usize, rounds: usize) {
             for _ in 0..rounds.div_ceil(3) {
                 let _ = plugin_validate(&b);
             }
-            vec![]
+            (vec![], None)
         }));
     }
+    let mut verdicts: Vec<String> = vec![];
+    let mut first_parse: Option<Result<String, String>> = None;
     for h in hs {
         match h.join() {
-            Ok(b) => bad.extend(b),
+            Ok((b, fp)) => {
+                for x in b {
+                    if x.contains('\u{1}') { verdicts.push(x) } else { bad.push(x) }
+                }
+                if fp.is_some() {
+                    first_parse = fp;
+                }
+            }
             Err(_) => println!("MICRO-NOTE subject={idx} a caller thread panicked"),
         }
     }
+    // the reference: the same calls with nothing else running, after the overlapped phase
+    let reference = match plugin_validate(good) {
+        Ok((v, e)) => format!("valid={v} errors={:?}", e.iter().take(2).collect::<Vec<_>>()),
+        Err(e) => format!("failed: {e}"),
+    };
+    for v in &verdicts {
+        let (who, got) = v.split_once('\u{1}').unwrap_or(("?", v));
+        if got != reference {
+            bad.push(format!("O2 {who} on a valid published message, overlapping other calls from a cold start, returned {got}; the same call with nothing else running returns {reference}"));
+        }
+    }
+    if let Some(fp) = first_parse {
+        let pr = plugin_parse(good);
+        if fp != pr {
+            bad.push(format!("O3 parse_mt on a valid published message overlapping other calls returned something else than without overlap ({} vs {} bytes)", fp.as_ref().map(|s| s.len()).unwrap_or(0), pr.as_ref().map(|s| s.len()).unwrap_or(0)));
+        }
+    }
+    if bad.is_empty() && reference != "valid=true errors=[]" {
+        println!("MICRO-SKIP subject={idx} mt={mt} the recorded valid message is not valid on this tree, with or without overlap: {reference}");
+        return;
+    }
     if bad.is_empty() {
-        println!("MICRO-OK subject={idx} mt={mt} valid message validated {} times while a rule-violating one was being validated rounds={rounds} callers=4", 2 * rounds);
+        println!("MICRO-OK subject={idx} mt={mt} valid message validated {} times from a cold start while a rule-violating one was being validated rounds={rounds} callers=4", 2 * rounds);
+    } else {
+        for b in &bad {
+            println!("MICRO-VIOLATION subject={idx} mt={mt} {b}");
+        }
+        std::process::exit(1);
+    }
+}
+
+/// C15 cold-start mode: N callers validate the same valid published message at the same moment as the
+/// very first use of the library in the process (first-touch initialisation of anything lazily built
+/// happens under overlap); the reference is the same call afterwards with nothing else running.
+fn run_c15_cold(idx: usize, callers: usize) {
+    let valid = subjects::VALID;
+    let (mt, good) = valid[idx % valid.len()];
+    let verdict = |t: &str| match plugin_validate(t) {
+        Ok((v, e)) => format!("valid={v} errors={:?}", e.iter().take(2).collect::<Vec<_>>()),
+        Err(e) => format!("failed: {e}"),
+    };
+    let hs: Vec<_> = (0..callers.max(2)).map(|_| { let g = good.to_string(); std::thread::spawn(move || verdict(&g)) }).collect();
+    let got: Vec<Option<String>> = hs.into_iter().map(|h| h.join().ok()).collect();
+    let reference = verdict(good);
+    let mut bad = vec![];
+    for (who, g) in got.iter().enumerate() {
+        match g {
+            Some(g) if *g != reference => bad.push(format!("O2 the first validate_mt of caller {who} on a valid published message, overlapping the other callers' first calls from a cold start, returned {g}; the same call with nothing else running returns {reference}")),
+            None => println!("MICRO-NOTE subject={idx} a caller thread panicked"),
+            _ => {}
+        }
+    }
+    if bad.is_empty() && reference != "valid=true errors=[]" {
+        println!("MICRO-SKIP subject={idx} mt={mt} the recorded valid message is not valid on this tree, with or without overlap: {reference}");
+    } else if bad.is_empty() {
+        println!("MICRO-OK subject={idx} mt={mt} valid message validated by {} callers at once from a cold start", callers.max(2));
+    } else {
+        for b in &bad {
+            println!("MICRO-VIOLATION subject={idx} mt={mt} {b}");
+        }
+        std::process::exit(1);
+    }
+}
+
+/// C13 cold-start mode: the callers' validations are the first validations of the process and overlap
+/// each other (whatever a validator builds lazily is built under overlap); the reference is taken afterwards.
+fn run_c13_cold(idx: usize, callers: usize) {
+    let (mt, _, text) = SUBJECTS[idx];
+    let p = match SwiftParser::parse_auto(text) {
+        Ok(p) => Arc::new(p),
+        Err(e) => {
+            println!("MICRO-SKIP subject={idx} mt={mt} does not parse on this tree: {e}");
+            return;
+        }
+    };
+    enum R {
+        Full(Vec<String>),
+        Stop(Vec<String>),
+        Flag((bool, usize)),
+    }
+    let hs: Vec<_> = (0..callers.max(2))
+        .map(|k| {
+            let p = p.clone();
+            std::thread::spawn(move || match k % 3 {
+                0 => R::Full(vnr(&p, false)),
+                1 => R::Stop(vnr(&p, true)),
+                _ => R::Flag(swift_validate(&p)),
+            })
+        })
+        .collect();
+    let got: Vec<Option<R>> = hs.into_iter().map(|h| h.join().ok()).collect();
+    let l = vnr(&p, false);
+    let mut bad = vec![];
+    for (who, g) in got.iter().enumerate() {
+        match g {
+            Some(R::Full(v)) if *v != l => bad.push(format!("I1 the first full validation of caller {who}, overlapping the other callers' first calls from a cold start, returned {} error(s); the same call with nothing else running returns {}", v.len(), l.len())),
+            Some(R::Stop(v)) if !(v.len() <= l.len() && v[..] == l[..v.len()] && v.is_empty() == l.is_empty()) => bad.push(format!("I2 the first stop-on-first validation of caller {who} from a cold start is not a non-empty prefix of the full list ({} vs {})", v.len(), l.len())),
+            Some(R::Flag(f)) if *f != (l.is_empty(), l.len()) => bad.push(format!("I3 the first SwiftMessage::validate of caller {who} from a cold start returned valid={} with {} error(s), the full list has {}", f.0, f.1, l.len())),
+            None => println!("MICRO-NOTE subject={idx} a caller thread panicked (C07 territory, not a C13 verdict)"),
+            _ => {}
+        }
+    }
+    if bad.is_empty() {
+        println!("MICRO-OK subject={idx} mt={mt} errors_in_full_list={} validated by {} callers at once from a cold start", l.len(), callers.max(2));
     } else {
         for b in &bad {
             println!("MICRO-VIOLATION subject={idx} mt={mt} {b}");
@@ -334,6 +440,12 @@ fn run_c15(idx: usize, rounds: usize) {
 
 fn main() {
     let mut args: Vec<String> = std::env::args().collect();
+    if args.get(1).map(|s| s.as_str()) == Some("c15cold") {
+        let idx: usize = args.get(2).and_then(|s| s.parse().ok()).unwrap_or(0);
+        let callers: usize = args.get(3).and_then(|s| s.parse().ok()).unwrap_or(4);
+        run_c15_cold(idx, callers);
+        return;
+    }
     if args.get(1).map(|s| s.as_str()) == Some("c15") {
         let idx: usize = args.get(2).and_then(|s| s.parse().ok()).unwrap_or(0);
         let rounds: usize = args.get(3).and_then(|s| s.parse().ok()).unwrap_or(1);
@@ -344,6 +456,12 @@ fn main() {
         let idx: usize = args.get(2).and_then(|s| s.parse().ok()).unwrap_or(0);
         let rounds: usize = args.get(3).and_then(|s| s.parse().ok()).unwrap_or(2);
         run_c16(idx, rounds);
+        return;
+    }
+    if args.get(1).map(|s| s.as_str()) == Some("c13cold") {
+        let idx: usize = args.get(2).and_then(|s| s.parse().ok()).unwrap_or(0) % SUBJECTS.len().max(1);
+        let callers: usize = args.get(3).and_then(|s| s.parse().ok()).unwrap_or(4);
+        run_c13_cold(idx, callers);
         return;
     }
     if args.get(1).map(|s| s.as_str()) == Some("c13") {
